@@ -24,7 +24,7 @@ def linear_system(rng):
     """mostly-linear systems so that analytic sets are non-trivial; a few nonlinear/time nodes mixed in"""
     while True:
         s = U.gen_system(rng, max_entries=rng.choice([1, 2, 2, 3, 3, 4]), allow_order=(1, 1, 1, 1, 2, 2, 3),
-                         kinds=("lin", "lin", "lin", "coupled", "coupled", "off", "off", "nonlin", "time"))
+                         kinds=("lin", "lin", "lin", "coupled", "coupled", "off", "off", "nonlin", "time"), const_funs=True)
         offs, n = U.offsets(s)
         if n > 6:
             continue
